@@ -170,6 +170,12 @@ def connect_outcome(kind, rnd):
         return {"k": "ok", "d": 0.0}
     if kind == "ok_slow":
         return {"k": "ok", "d": rnd.choice([0.125, 1.0, 4.5, 5.0 - EPS])}
+    if kind == "ok_sockopt":
+        # connected, but the platform refuses the keep-alive socket options (ENOPROTOOPT / EINVAL)
+        return {"k": "ok", "d": 0.0, "sockopt": rnd.choice([92, 22])}
+    if kind == "ok_late":
+        # the connection is established only after the library has given the attempt up (it waits 5 s)
+        return {"k": "ok", "d": rnd.choice([5.0 + EPS, 5.5, 7.0, 12.0])}
     if kind == "refused":
         return {"k": "refused", "d": rnd.choice([0.0, 0.125])}
     if kind == "unreach":
@@ -227,7 +233,7 @@ def make_case(tier, seed, index):
         pre = rnd.choice([0, 0, 1, 2])
         conn_kinds = []
         if tr == "tcp":
-            ck = [k for k in ("ok", "ok_slow", "refused", "unreach", "hang") if rnd.random() < 0.5] or ["ok"]
+            ck = [k for k in ("ok", "ok_slow", "refused", "unreach", "hang", "ok_late") if rnd.random() < 0.5] or ["ok"]
             conn_kinds = [rnd.choice(ck) if rnd.random() < 0.4 else "ok" for _ in range(rnd.randint(0, 6))]
         op = rnd.choice(["read", "read", "write", "wmulti"])
         if op == "read":
